@@ -10,6 +10,14 @@ for i in $(seq 1 "$N"); do
   list="$list C10 $rs C05 $rs"
 done
 out=$(echo $list | xargs -P 16 -n 2 ./tools/vg_one.sh)
+# second pass, engine compiled at -O0 (build variant vg0), over the short sessions of the same list (at most 60k node visits)
+if [ -x build/vg0/vsim ]; then
+  out0=$(echo $list | xargs -P 16 -n 2 sh -c './tools/vg_one.sh "$0" "$1" vg0 60000')
+  ok0=$(echo "$out0" | grep -c "^VG-OK")
+  echo "valgrind (engine at -O0): $ok0 simulated runs clean"
+  out="$out
+$(echo "$out0" | grep -v "^VG-SKIP")"
+fi
 echo "$out" | grep -v "^VG-"
 ok=$(echo "$out" | grep -c "^VG-OK"); sk=$(echo "$out" | grep -c "^VG-SKIP")
 echo "valgrind: $ok simulated runs clean, $sk skipped (game longer than 780 plies or more than 300k node visits)"
